@@ -565,6 +565,18 @@ func runC04Instance(c *vc.Ctx, inst *C04Instance, attempt int) (inconclusive str
 	}
 	ckptLeakPossible := ckptSlowest >= 20*time.Millisecond
 	tainted := false // a replica demonstrably applied writes twice after restoring such a checkpoint
+	// the leak's symptom is a double apply of a non-idempotent write: some key's
+	// accounting must say so before a divergence is attributed to it
+	doubleApplySeen := func() bool {
+		for _, k := range r.w.keys() {
+			if kops := byKey[k.Name]; len(kops) > 1 {
+				if sig, _ := accounting(k.Family, kops); sig == "write-applied-twice" {
+					return true
+				}
+			}
+		}
+		return false
+	}
 	// (i) pairwise equal dumps
 	ref, _ := json.Marshal(dumps[0])
 	for i := 1; i < len(dumps); i++ {
@@ -580,7 +592,7 @@ func runC04Instance(c *vc.Ctx, inst *C04Instance, attempt int) (inconclusive str
 			}
 			sig := "replica-divergence"
 			note := ""
-			if ckptLeakPossible {
+			if ckptLeakPossible && doubleApplySeen() {
 				sig = "pebble-checkpoint-leaks-later-writes/replica-divergence"
 				tainted = true
 				w["checkpoint_evidence"] = ckptEvidence
@@ -764,6 +776,15 @@ func diffDumps(a, b *Dump) []map[string]interface{} {
 	cmp("list", keysOfL(a.List), keysOfL(b.List), func(d *Dump, k string) (interface{}, bool) { v, ok := d.List[k]; return v, ok })
 	cmp("set", keysOfL(a.Set), keysOfL(b.Set), func(d *Dump, k string) (interface{}, bool) { v, ok := d.Set[k]; return v, ok })
 	cmp("zset", keysOfZ(a.ZSet), keysOfZ(b.ZSet), func(d *Dump, k string) (interface{}, bool) { v, ok := d.ZSet[k]; return v, ok })
+	pfk := func(d *Dump) []string {
+		var out []string
+		for k := range d.PF {
+			out = append(out, k)
+		}
+		sort.Strings(out)
+		return out
+	}
+	cmp("pfcount", pfk(a), pfk(b), func(d *Dump, k string) (interface{}, bool) { v, ok := d.PF[k]; return v, ok })
 	return out
 }
 
